@@ -102,12 +102,6 @@ Example string_value_indent_refuted :
   run impl_flags (EFun1 FString p_c_l1) = OStr [10; 32; 32; 53; 46; 48; 10; 32; 32; 49; 10; 10; 32; 32; 32; 32; 113; 10].
 Proof. split; vm_compute; reflexivity. Qed.
 
-(* (1)/node() : a type error; as coded an empty node-set *)
-Example node_step_on_non_nodeset_refuted :
-  run spec_flags (EStep (num [49]) false AxChild TNode PNil) = OErr E_TYPE /\
-  run impl_flags (EStep (num [49]) false AxChild TNode PNil) = ONodes [].
-Proof. split; vm_compute; reflexivity. Qed.
-
 (* string(1 div 4), number('1e3'), string-length('é'), 9007199254740993 = 9007199254740992 through the evaluator *)
 Example kernels_through_eval_refuted :
   run spec_flags (EFun1 FString (EArith ADiv (num [49]) (num [52]))) = OStr [48; 46; 50; 53] /\
@@ -173,4 +167,8 @@ Proof. split; vm_compute; reflexivity. Qed.
 
 (* 0327904  floor(-1.5) *)
 Example floor_regression : agree (EFun1 FFloor (ENeg (num [49; 46; 53]))) (ONum (XFin true (inject_Z 2))).
+Proof. split; vm_compute; reflexivity. Qed.
+
+(* 17c1e75  (1)/node() : a step after a non-node-set is a type error *)
+Example node_step_on_non_nodeset_regression : agree (EStep (num [49]) false AxChild TNode PNil) (OErr E_TYPE).
 Proof. split; vm_compute; reflexivity. Qed.
